@@ -153,6 +153,14 @@ fn tracker_velocity_mismatch<H: Copy + Into<f64> + std::fmt::Debug, S: Copy + In
 }
 
 pub fn replay(pid: &'static str, v: &Value) -> Vec<Failure> {
+    // (a saved case must not take the harness down: a panic while replaying it is the finding)
+    match std::panic::catch_unwind(std::panic::AssertUnwindSafe(|| replay_inner(pid, v))) {
+        Ok(r) => r,
+        Err(_) => vec![Failure { sig: format!("{pid}/panic/replay"), msg: format!("replaying the saved case panicked at {}", last_panic()), replay: v.clone() }],
+    }
+}
+
+fn replay_inner(pid: &'static str, v: &Value) -> Vec<Failure> {
     if v.get("kind").and_then(|k| k.as_str()) == Some("first_use") {
         return replay_first_use(pid, v);
     }
